@@ -202,7 +202,7 @@ def _table_worker(task):
         if alt is not None:
             it += " [%s [%s]]" % (root_jdn(alt[0]), " ".join(op_jdn(o) for o in alt[1]))
         items.append(it + "]")
-    res = run_batch(_W["variant"], DRV_TABLE, items, env=_W["env"], chunk=max(1, len(items)), jobs=1, timeout=300)
+    res = run_batch(_W["variant"], DRV_TABLE, items, env=_W["env"], chunk=max(1, len(items)), jobs=1, timeout=60)
     full = bool(flags & 1)
     out = []
     cache = {}
